@@ -20,7 +20,6 @@ import (
 	"os"
 	"path/filepath"
 	"reflect"
-	"regexp"
 	"sort"
 	"strconv"
 	"strings"
@@ -272,7 +271,7 @@ func roDeepChecks(in []byte, ops []ue.Op) []core.Check {
 
 // editArgs: the `utk` arguments of an editing operation (as uefiedit.Op.cliArgs, which is not exported).
 func editArgs(o ue.Op, step int) []string {
-	re := regexp.QuoteMeta(o.Sel)
+	re := o.Pattern() // a literal selector quoted, or the regular expression itself (uefiedit/selre.go)
 	write := func(name string, data []byte) string {
 		p := filepath.Join(roDir(), name)
 		if err := os.WriteFile(p, data, 0o644); err != nil {
